@@ -129,6 +129,19 @@ CHECKS = {
         note='Run = fresh Flow construction. Value domain beyond the catalogue is sampled (seeded), judged by the spec\'s equations; string/int/bool/decimal text is compared as code points.',
         technique='TLA+ history model checked with TLC and every history replayed; TLA+ codec spec checked on a boundary catalogue; TLC trace validation of cells recorded from real first/resumed runs',
         design='6/C07', specs=['CheckpointChain.tla', 'Checkpoint.tla', 'Ejson.tla', 'EjsonTrace.tla']),
+    'C11': dict(
+        level='model_checking',
+        text='ProcJoin.tla states join twice - the declarative relational definition (JoinDef / DedupDef, one AggDef per aggregator) and the '
+             'streaming design of the code (IndexRow folding source rows into per-key states, EmitTarget, unused keys at the end) - and TLC '
+             'checks streaming = declarative on every case: 12 aggregators x 3 modes x all source tables of <=2 (quick) / <=3 rows x target '
+             'tables <=2 rows over keys {1,2,null} and values {0,2,null}, plus key = row number. Every exported case (quick: a seeded fifth, '
+             '~13000) is run on the real join with key as field list / format string, source_delete on/off, wildcard mapping, and '
+             'join_with_self; target rows compared in order, unmatched-source and deduplication rows as multisets. 300/6000 seeded random '
+             'joins of 0..12 rows (negative, zero, null values; duplicate/missing/null keys) are recorded and TLC evaluates JoinDef on the '
+             'recorded input (JoinTrace.tla).',
+        note='Numeric aggregates compared as exact rationals (a double stands for the small-denominator rational it rounds). The >10240-key on-disk index is not yet driven (planned for the thorough tier).',
+        technique='TLA+ declarative vs streaming join model checked with TLC; every exported case replayed on the real join; recorded random joins judged by the TLA+ definition',
+        design='6/C11', specs=['ProcJoin.tla', 'JoinTrace.tla']),
 }
 
 NOT_YET = 'check not built yet (build in progress, see DESIGN.md section 10)'
